@@ -104,7 +104,7 @@ CLAIM = {
     "text": "Decides the type-confusion clause: values taken from match.groups() are strings and reach numeric sinks (max, ordering, arithmetic) only "
             "through int(); the field width of the combined width/precision case is max(int(precision), int(width)) (the string comparison fixed in "
             "/repo as F-10 would be reported again); regex groups and the unpacking agree. Full printf semantics are not decided.",
-    "technique": "taint from regex groups to numeric sinks; regex-group / unpack agreement (regex compiled, not the code run)",
+    "technique": "taint from regex groups to numeric sinks; regex-group / unpack agreement (regex compiled, not the code run); symbolic evaluation of the built specifier over all 64 flag / width / precision cases",
 }
 
 C = "consolidators.py"
